@@ -31,11 +31,11 @@ def consts(maxmods, kinds=ALL_KINDS, slices=("none", "head", "fancy"), nest=Fals
                 AllowNest=nest, Record=record, Variant=variant)
 
 
-def model_check(chk, label, c, expect_violation=False):
+def model_check(chk, label, c, expect_violation=False, budget_s=None):
     name, mod, cfg = tlc.mc("Network", c, invariants=INVS, properties=PROPS)
     if expect_violation:
         return tlc.run(name, cfg, extra_modules={name: mod}, expect_violation=True)
-    return chk.tlc_must_hold(name, cfg, label=label, extra_modules={name: mod})
+    return chk.tlc_must_hold(name, cfg, label=label, extra_modules={name: mod}, **({"budget_s": budget_s} if budget_s else {}))
 
 
 def emit(c, simulate=None, seed=0, depth=60):
@@ -404,38 +404,46 @@ def run(chk, replay=None):
     model_check(chk, "Network 2 modules nested", consts(2, nest=True))
     model_check(chk, "Network 3 modules, Mul/Split, none+fancy", consts(3, kinds=["Mul", "Split"], slices=("none", "fancy")))
     if thorough:
-        model_check(chk, "Network 3 modules, Lin/Mul/Split, none+fancy", consts(3, kinds=["Lin", "Mul", "Split"], slices=("none", "fancy")))
-        model_check(chk, "Network 3 modules, Sc/Cat/Dot/Mul, none+head", consts(3, kinds=["Sc", "Cat", "Dot", "Mul"], slices=("none", "head")))
-        model_check(chk, "Network 3 modules nested Lin/Split/Mul", consts(3, kinds=["Lin", "Split", "Mul"], slices=("none", "head"), nest=True))
-        model_check(chk, "Network 4 modules Lin/Mul/Split no slices", consts(4, kinds=["Lin", "Mul", "Split"], slices=("none",)))
+        # larger program spaces, each within a time budget (an exhausted budget leaves that space undecided, see evidence)
+        model_check(chk, "Network 3 modules, Lin/Mul/Split, none+fancy", consts(3, kinds=["Lin", "Mul", "Split"], slices=("none", "fancy")), budget_s=1500)
+        model_check(chk, "Network 3 modules, Sc/Cat/Dot/Mul, none+head", consts(3, kinds=["Sc", "Cat", "Dot", "Mul"], slices=("none", "head")), budget_s=1500)
+        model_check(chk, "Network 3 modules nested Lin/Split/Mul", consts(3, kinds=["Lin", "Split", "Mul"], slices=("none", "head"), nest=True), budget_s=1500)
+        model_check(chk, "Network 4 modules Lin/Mul/Split no slices", consts(4, kinds=["Lin", "Mul", "Split"], slices=("none",)), budget_s=1500)
     for variant in ("no_skip", "overwrite"):
         r = model_check(chk, "neg " + variant, consts(2, variant=variant, kinds=["Lin", "Split", "Mul"]), expect_violation=True)
         if r.violated is None:
             raise tlc.TLCError("negative variant %s of Network.tla was not refuted" % variant)
     # [R]
-    jobs = []
-    with cf.ThreadPoolExecutor(max_workers=14) as ex:
-        # all two-module programs (one TLC process per kind of the first module)
-        for k in ALL_KINDS:
-            jobs.append(ex.submit(emit, consts(2, first=[k], slices=("none", "head", "fancy") if thorough else ("none", "fancy"))))
-        # one-module programs
-        jobs.append(ex.submit(emit, consts(1)))
-        nsim = 6000 if thorough else 600
-        for j in range(8 if thorough else 3):
-            jobs.append(ex.submit(emit, consts(3, nest=True), nsim, chk.seed * 31 + j))
-            jobs.append(ex.submit(emit, consts(4, nest=True), nsim // 2, chk.seed * 37 + j))
-        if thorough:
-            for j in range(4):
-                jobs.append(ex.submit(emit, consts(5, nest=True), nsim // 2, chk.seed * 41 + j, 80))
-        for j in cf.as_completed(jobs):
-            r = j.result()
-            chk.transitions += r.generated
-            chk.tlc_runs.append({"module": "Network", "label": "emit", "generated": r.generated, "distinct": r.distinct,
-                                 "wall_s": round(r.wall, 2)})
-            cases = [v[0] for tag, v in r.printed if tag == "PROG"]
-            if not thorough and len(cases) > 3000:
-                import random
-                cases = random.Random(chk.seed + len(cases)).sample(cases, 3000)     # quick tier: seeded sample of each exhaustive family
-            check_cases(chk, cases)
+    plan = []
+    # all two-module programs (one TLC process per kind of the first module)
+    for k in ALL_KINDS:
+        plan.append((consts(2, first=[k], slices=("none", "head", "fancy") if thorough else ("none", "fancy")),))
+    # one-module programs
+    plan.append((consts(1),))
+    nsim = 3000 if thorough else 600
+    for j in range(6 if thorough else 3):
+        plan.append((consts(3, nest=True), nsim, chk.seed * 31 + j))
+        plan.append((consts(4, nest=True), nsim // 2, chk.seed * 37 + j))
+    if thorough:
+        for j in range(4):
+            plan.append((consts(5, nest=True), nsim // 2, chk.seed * 41 + j, 80))
+    cap = 20000 if thorough else 3000         # seeded sample of each exhaustive family
+    width = 7
+    import random
+    for k0 in range(0, len(plan), width):
+        with cf.ThreadPoolExecutor(max_workers=width) as ex:
+            futs = [ex.submit(emit, *args) for args in plan[k0:k0 + width]]
+            for j in cf.as_completed(futs):
+                r = j.result()
+                chk.transitions += r.generated
+                chk.tlc_runs.append({"module": "Network", "label": "emit", "generated": r.generated, "distinct": r.distinct,
+                                     "wall_s": round(r.wall, 2)})
+                cases = [v[0] for tag, v in r.printed if tag == "PROG"]
+                r.printed = []
+                if len(cases) > cap:
+                    cases = random.Random(chk.seed + len(cases)).sample(cases, cap)
+                check_cases(chk, cases)
+                del cases, r
+            del futs
     library_network_traces(chk, thorough)
     module_init_contract(chk)
